@@ -39,7 +39,7 @@ class Contract:
     def __init__(self, target, args=None, requires=None, ensures=(), outcomes=None,
                  returns=None, effect=None, result=None, setup=None, covers=None,
                  inputs_of=None, replay=None, note='', label=None,
-                 outputs=None):
+                 outputs=None, lemmas=(), overrides=None, exc_fields=None):
         self.target = target
         self.fn = resolve(target)
         self.args = dict(args or {})
@@ -54,6 +54,9 @@ class Contract:
         self.replay = replay        # callable(model) -> dict(ok=bool, ...): native replay
         self.note = note
         self.label = label or target
+        self.lemmas = list(lemmas)     # spec functions f(x: str) assumed as forall x. f(x)
+        self.exc_fields = dict(exc_fields or {})   # exception class -> {field: type} (call sites)
+        self.overrides = dict(overrides or {})   # env attributes set while verifying this contract
 
 
 class Env:
@@ -79,6 +82,8 @@ class Env:
         self.current_target = None
         self.touched = {}
         self.trusted = []           # human readable list of assumed contracts
+        self.abstract_regex = False  # regex membership as uninterpreted predicates (+ lemmas)
+        self.abstract_sets = set()  # names of seq inputs only ever used through set(...)
         self.object_models = {}     # id(real module-level object) -> schema name
         self.attr_models = {}       # (schema, attr) -> ModelMethod evaluated on attribute read
 
